@@ -38,8 +38,10 @@ def run(ctx, rep):
     for k in range(N):
         chain = ctx.rng.random() < 0.2
         names, rules = gen_rules(ctx.rng, 9 if chain else ctx.rng.randint(2, 6), chain)
-        dmode = ctx.rng.choice(['none', 'defined', 'undefined'])
+        dmode = ctx.rng.choice(['none', 'defined', 'undefined', 'check', 'check'])
         default = None
+        if dmode == 'check':
+            default = {'check': ctx.rng.choice(['@', 'role:r0', 'not role:r1', 'role:r1 or role:r2', '!'])}
         if dmode == 'defined':
             rules['dflt'] = ctx.rng.choice(['role:r0', 'role:r1 or role:r2', '@', '!', 'not role:r0'])
             default = 'dflt'
@@ -70,7 +72,7 @@ def run(ctx, rep):
             scs.append({'rules': r_in, 'default': default, '_kind': 'inlined', '_what': (n, m), 'queries': qs})
     rep.rules.append('%d acyclic rule graphs over 2..6 names (20%%: alias chains through 9 names) with bodies from the '
                      'expression generator mixing role checks, rule: references to later names, undefined references and '
-                     'constants; default rule unset / defined / undefined; for each: every name and undefined name through an '
+                     'constants; default rule unset / defined / undefined / given as a check object; for each: every name and undefined name through an '
                      'alias, and one reference replaced by the parenthesised text of its definition; all 8 role subsets' % N)
     state = {}
 
